@@ -16,8 +16,7 @@ Representation choices (all documented because the theorems are about exactly th
   the Go counter is an atomic uint64 that is decremented and incremented by different critical sections.
 * per thread a program counter `Pc`: idle / blocked in `wg.Wait()` / running the loader.  The value, size and
   outcome (value / error / panic) of a loader run are arguments of the `finish` label: the loader is an oracle.
-* not modelled (invisible to the property): metrics, `maxPayloadSize` / `recreatePayload` (re-allocates the map
-  with the same content), `creationTime`, `CleanStat` except the fields printed by the driver, the `Reset`
+* not modelled (invisible to the property): metrics, `creationTime`, `CleanStat` except the fields printed by the driver, the `Reset`
   methods used by tests only.
 * atomicity assumptions: each label is one mutex-protected section; `Cleaner.Cleanup`'s bucket snapshot and
   `markStale` are one step (`cleanupBegin`), the bucket visits are separate steps.
@@ -72,6 +71,8 @@ structure St where
   lastGen : Nat
   buckets : List Nat
   pcL : List Pc
+  /-- `Cache.maxPayloadSize` per cache: the largest map length seen by `Cleanup` since the map was last rebuilt -/
+  maxPL : List Nat
   /-- buckets the running `Cleaner.Cleanup` still has to visit (`none`: no pass in progress) -/
   todo : Option (List Nat)
   /-- ghost: (cache, key, value) of every loader run that returned a value -/
@@ -101,7 +102,7 @@ def St.pc (s : St) (t : Nat) : Pc := mget .idle s.pcL t
 /-- `NewCleaner` -/
 def init : St :=
   { heap := [], ncaches := 0, curL := [], relL := [], ngens := 1, gsizeL := [], staleL := [], glist := [0],
-    lastGen := 0, buckets := [], pcL := [], todo := none, produced := [] }
+    lastGen := 0, buckets := [], pcL := [], maxPL := [], todo := none, produced := [] }
 
 /-- `g.size.Add(d)` -/
 def addG (l : List Int) (g : Nat) (d : Int) : List Int := mset 0 l g (mget 0 l g + d)
@@ -117,7 +118,7 @@ inductive Out
   | panic
   | rotated (b : Bool) (lastGenSize : Int)
   | cleanup (started : Bool) (sizeToClean : Int) (gens : Nat)
-  | freed (n : Nat)
+  | freed (n : Nat) (rebuilt : Bool)
   | count (n : Nat)
 deriving DecidableEq, Repr
 
@@ -199,9 +200,38 @@ def release (s : St) (c : Nat) : St :=
 
 def evict (stale : Nat → Bool) (c : Nat) (e : Entry) : Bool := e.cache == c && (e.inMap && stale e.gen)
 
-/-- `Cache.Cleanup` : delete the entries of stale generations; returns the freed size -/
+/-- the map after the eviction loop of `Cache.Cleanup` -/
+def evicted (s : St) (c : Nat) : List Entry :=
+  s.heap.map fun e => if evict s.stale c e then { e with inMap := false, deleted := true } else e
+
+/-- `len(c.payload)` -/
+def payloadLen (heap : List Entry) (c : Nat) : Nat := (heap.filter fun e => e.inMap && e.cache == c).length
+
+def recreateThreshold : Nat := 200
+def excessiveSizeFactor : Nat := 10
+
+/-- `c.maxPayloadSize` of cache `c` -/
+def St.maxP (s : St) (c : Nat) : Nat := mget 0 s.maxPL c
+
+/-- `maxPayloadSize` after the update at the start of `Cache.Cleanup` -/
+def maxSeen (s : St) (c : Nat) : Nat := max (s.maxP c) (payloadLen s.heap c)
+
+/-- `recreatePayload` goes ahead: the map was once large (`>= recreateThreshold`) and is now at most a tenth of that -/
+def rebuilds (s : St) (c : Nat) : Bool :=
+  decide (recreateThreshold ≤ maxSeen s c) && decide (payloadLen (evicted s c) c * excessiveSizeFactor ≤ maxSeen s c)
+
+/-- which entries the copy loop of `recreatePayload` carries into the new map: every one (`newPayload[k] = v` for all
+`k, v`), whatever its state - in particular entries that are still loading -/
+def copied (_e : Entry) : Bool := true
+
+/-- `recreatePayload`'s new map: an entry of cache `c` that is not copied would no longer be in the map -/
+def recreate (heap : List Entry) (c : Nat) : List Entry :=
+  heap.map fun e => if e.cache = c ∧ e.inMap = true ∧ copied e = false then { e with inMap := false } else e
+
+/-- `Cache.Cleanup` : delete the entries of stale generations, then `recreatePayload`; returns the freed size -/
 def cacheCleanup (s : St) (c : Nat) : St × Nat :=
-  ({ s with heap := s.heap.map fun e => if evict s.stale c e then { e with inMap := false, deleted := true } else e },
+  ({ s with heap := if rebuilds s c then recreate (evicted s c) c else evicted s c,
+            maxPL := mset 0 s.maxPL c (if rebuilds s c then payloadLen (evicted s c) c else maxSeen s c) },
    ((s.heap.filter (evict s.stale c)).map (·.size)).sum)
 
 /-! ## cleaner.go -/
@@ -304,7 +334,7 @@ def step (cfg : Cfg) (s : St) : Label → Option (St × Out)
   | .cleanupBegin => if s.todo = none then some (cleanupBegin cfg s) else none
   | .cleanupBucket =>
     match s.todo with
-    | some (b :: rest) => some ({ (cacheCleanup s b).1 with todo := mkTodo rest }, .freed (cacheCleanup s b).2)
+    | some (b :: rest) => some ({ (cacheCleanup s b).1 with todo := mkTodo rest }, .freed (cacheCleanup s b).2 (rebuilds s b))
     | _ => none
   | .cleanEmpty => if s.todo = none then cleanEmpty s else none
   | .releaseBuckets =>
@@ -365,7 +395,7 @@ def cleanupRest (s : St) : List Nat → St × List Out
   | [] => (s, [])
   | b :: rest =>
     let r := cleanupRest (cacheCleanup s b).1 rest
-    (r.1, .freed (cacheCleanup s b).2 :: r.2)
+    (r.1, .freed (cacheCleanup s b).2 (rebuilds s b) :: r.2)
 
 def seqOp (cfg : Cfg) (s : St) : Op → Option (St × List Out)
   | .newCache => some (newCache s, [.none])
